@@ -24,12 +24,14 @@ import (
 	"github.com/scionproto/scion/control/beacon"
 	"github.com/scionproto/scion/control/beaconing"
 	"github.com/scionproto/scion/control/ifstate"
+	"github.com/scionproto/scion/control/segreg"
 	"github.com/scionproto/scion/pkg/addr"
 	"github.com/scionproto/scion/pkg/private/ptr"
 	"github.com/scionproto/scion/pkg/scrypto/cppki"
 	seg "github.com/scionproto/scion/pkg/segment"
 	"github.com/scionproto/scion/pkg/snet"
 	"github.com/scionproto/scion/pkg/snet/path"
+	"github.com/scionproto/scion/private/segment/seghandler"
 	infra "github.com/scionproto/scion/private/segment/verifier"
 	storagebeacon "github.com/scionproto/scion/private/storage/beacon"
 	beaconsqlite "github.com/scionproto/scion/private/storage/beacon/sqlite"
@@ -147,19 +149,20 @@ func runTrace(w *vt.Writer, c cfg, cases []bcase, id int, src string) {
 	defer bdb.Close()
 	var inserter beaconing.BeaconInserter
 	var provider beaconing.BeaconProvider
+	var segProvider beaconing.SegmentProvider
 	if c.Core {
 		st, err := beacon.NewCoreBeaconStore(beacon.CorePolicies{Prop: policy(c, 8), CoreReg: policy(c, 4)}, bdb)
 		if err != nil {
 			vt.Fatal("core store: %v", err)
 		}
-		inserter, provider = st, st
+		inserter, provider, segProvider = st, st, st
 	} else {
 		st, err := beacon.NewBeaconStore(beacon.Policies{Prop: policy(c, 8), UpReg: policy(c, 1),
 			DownReg: policy(c, 2)}, bdb)
 		if err != nil {
 			vt.Fatal("store: %v", err)
 		}
-		inserter, provider = st, st
+		inserter, provider, segProvider = st, st, st
 	}
 	infos := map[uint16]ifstate.InterfaceInfo{}
 	for _, i := range c.Ifs {
@@ -283,6 +286,57 @@ func runTrace(w *vt.Writer, c cfg, cases []bcase, id int, src string) {
 	}
 	f.mu.Unlock()
 	w.Emit(vt.M{"ev": "prop", "sends": sends})
+
+	// registration side: one WriteScheduler.Run per segment type through the real GroupWriter and
+	// LocalWriter; the recording segment store sees what would be registered
+	for _, t := range []seg.Type{seg.TypeUp, seg.TypeDown, seg.TypeCore} {
+		pt := map[seg.Type]beacon.RegPolicyType{seg.TypeUp: beacon.RegPolicyTypeUp,
+			seg.TypeDown: beacon.RegPolicyTypeDown, seg.TypeCore: beacon.RegPolicyTypeCore}[t]
+		rec := &recStore{}
+		lw, err := (&beaconing.LocalSegmentRegistrationPlugin{Store: rec}).New(ctx, pt, nil)
+		if err != nil {
+			vt.Fatal("local writer: %v", err)
+		}
+		regs := segreg.SegmentRegistrars{}
+		if err := regs.RegisterDefaultSegmentRegistrar(pt, lw); err != nil {
+			vt.Fatal("registrar: %v", err)
+		}
+		ws := &beaconing.WriteScheduler{
+			Provider: segProvider,
+			Intfs:    intfs,
+			Type:     t,
+			Writer: &beaconing.GroupWriter{PolicyType: pt, Registrars: regs, Intfs: intfs,
+				Extender: noExtender{}},
+			Tick: beaconing.NewTick(time.Hour),
+		}
+		func() {
+			defer func() {
+				if r := recover(); r != nil {
+					w.Emit(vt.M{"ev": "panic", "k": 0, "what": fmt.Sprint(r)})
+				}
+			}()
+			ws.Run(ctx)
+		}()
+		segs := []vt.M{}
+		for _, m := range rec.metas {
+			segs = append(segs, vt.M{"k": serialOf[string(m.Segment.ID())], "type": int(m.Type)})
+		}
+		sort.Slice(segs, func(i, j int) bool { return segs[i]["k"].(int) < segs[j]["k"].(int) })
+		w.Emit(vt.M{"ev": "regrun", "type": int(t), "segs": segs})
+	}
+}
+
+// recStore records what the LocalWriter hands to the segment store.
+type recStore struct {
+	mu    sync.Mutex
+	metas []*seg.Meta
+}
+
+func (s *recStore) StoreSegs(ctx context.Context, metas []*seg.Meta) (seghandler.SegStats, error) {
+	s.mu.Lock()
+	defer s.mu.Unlock()
+	s.metas = append(s.metas, metas...)
+	return seghandler.SegStats{}, nil
 }
 
 func nonNil(x []int) []int {
